@@ -293,6 +293,24 @@ def _algo(ck: Checker) -> None:
                 n_sites += 1
                 _algo_cut(ck, gh, g2, n, smany)
     ck.floor("C13.algo", n_sites, 2, "consumers of state.get / state.get_many")
+    # an index entry's hash is advertised to fs consumers (hash.py trusts info[<algorithm>]) under its
+    # own algorithm name, never re-labelled
+    ie = prog.func("index.index", "BaseDataIndex._info_from_entry")
+    gi = ck.cfg(ie)
+    from ..an import value_alts
+
+    n_adv = 0
+    for n in gi.nodes.values():
+        a = n.ast
+        if n.kind == "stmt" and isinstance(a, ast.Assign) and isinstance(a.targets[0], ast.Subscript) and any(norm(v).endswith("hash_info.value") for v in value_alts(gi, n, a.value, depth=2)):
+            n_adv += 1
+            keys = [norm(k) for k in value_alts(gi, n, a.targets[0].slice, depth=3)]
+            finals = [k for k in keys if not k.isidentifier()]
+            ok = bool(finals) and all(k.endswith("hash_info.name") for k in finals)
+            ck.require(ok, "C13.algo", ie, n, "an entry's hash value is advertised under its own algorithm name",
+                       f"the entry's hash value is advertised under {keys}: a legacy md5-dos2unix digest exposed as `md5` is trusted by hash_file/_hash_file as the md5 of the file",
+                       construct=f"{n.text()[:60]} / info key")
+    ck.floor("C13.algo", n_adv, 1, "hash advertisement in BaseDataIndex._info_from_entry")
 
 
 def _algo_cut(ck: Checker, fn: Func, g, sink, calls) -> None:
